@@ -16,6 +16,9 @@ func init() { register("C09", runC09) }
 var c09states = []isaacstates.StateType{isaacstates.StateStopped, isaacstates.StateBooting, isaacstates.StateJoining,
 	isaacstates.StateConsensus, isaacstates.StateSyncing, isaacstates.StateHandover, isaacstates.StateBroken}
 
+// a state no handler is registered for
+const c09nowhere = isaacstates.StateType("NOWHERE")
+
 func c09tok(s isaacstates.StateType) string {
 	switch s {
 	case isaacstates.StateStopped:
@@ -32,6 +35,8 @@ func c09tok(s isaacstates.StateType) string {
 		return "HA"
 	case isaacstates.StateBroken:
 		return "BR"
+	case c09nowhere:
+		return "XX"
 	}
 	return "??"
 }
@@ -129,15 +134,42 @@ func runC09(c *Ctx) error {
 		}
 		var toks, outs []string
 		allowed := allow
-		for st := 0; st < 3+c.Intn(10); st++ {
+		// every eighth history starts with a fixed prefix: the node enters JOINING while allowed, consensus is withdrawn,
+		// and then CONSENSUS is asked for from JOINING
+		type c09forced struct {
+			k          int
+			from, next isaacstates.StateType
+			v          bool
+		}
+		var forced []c09forced
+		if i%8 == 0 && allow && len(tab) == 0 {
+			forced = []c09forced{{k: 0, from: isaacstates.StateStopped, next: isaacstates.StateBooting}, {k: 0, from: isaacstates.StateBooting, next: isaacstates.StateJoining},
+				{k: 9, v: false}, {k: 0, from: isaacstates.StateJoining, next: isaacstates.StateConsensus}}
+			c.Count("histories", "joining-then-disallowed-prefix")
+		}
+		nst := 3 + c.Intn(10) + len(forced)
+		for st := 0; st < nst; st++ {
 			cur := vs.Current()
 			from := cur
 			if c.Chance(1, 5) {
 				from = c09states[c.Intn(7)]
 			}
 			next := c09states[c.Intn(7)]
+			if c.Chance(1, 12) { // a target nobody handles
+				next = c09nowhere
+			}
+			k := c.Intn(10)
+			forcedV, isForced := false, false
+			if len(forced) > 0 {
+				f := forced[0]
+				forced = forced[1:]
+				k, isForced, forcedV = f.k, true, f.v
+				if f.k == 0 {
+					from, next = f.from, f.next
+				}
+			}
 			var tok, out string
-			switch k := c.Intn(10); {
+			switch {
 			case k < 5:
 				tok = fmt.Sprintf("en:%s:%s", c09tok(from), c09tok(next))
 				err := vs.VerifEnsure(from, next)
@@ -169,6 +201,9 @@ func runC09(c *Ctx) error {
 				}
 			default:
 				v := c.Bool()
+				if isForced {
+					v = forcedV
+				}
 				tok = fmt.Sprintf("al:%s", b01(v))
 				out = b01(vs.SetAllowConsensus(v))
 				allowed = v
@@ -181,11 +216,14 @@ func runC09(c *Ctx) error {
 			if cur == isaacstates.StateStopped && now != cur && now != isaacstates.StateBooting && now != isaacstates.StateBroken && !c09anyRedirect(tab) {
 				c.Violation("C09:stopped-left-by-other-edge", fmt.Sprintf("from STOPPED to %s by %s", now, tok), map[string]interface{}{"ops": toks})
 			}
-			if !allowed && tok[:2] != "al" && cur != isaacstates.StateHandover && cur != isaacstates.StateJoining && cur != isaacstates.StateConsensus {
+			if !allowed && tok[:2] != "al" && cur != isaacstates.StateHandover && cur != isaacstates.StateConsensus && now != cur {
 				// enter redirects of the stubs may go anywhere; the property speaks of the switching core: only flag when no stub redirected
 				if (now == isaacstates.StateJoining || now == isaacstates.StateConsensus) && !c09anyRedirect(tab) {
 					c.Violation("C09:consensus-entered-while-disallowed", fmt.Sprintf("not allowed, %s -> %s by %s", cur, now, tok), map[string]interface{}{"ops": toks})
 				}
+			}
+			if from != cur && (tok[:2] == "en" || tok[:2] == "sw") && now != cur {
+				c.Violation("C09:stale-request-has-effect", fmt.Sprintf("the machine is in %s; a request %s (origin %s) moves it to %s", cur, tok, from, now), map[string]interface{}{"ops": toks})
 			}
 			if mismatch != "" {
 				c.Violation("C09:report-differs-from-current", mismatch, map[string]interface{}{"ops": toks})
